@@ -379,7 +379,7 @@ package builder
 //@   modifies p.pt, *p.errs, p.depth, p.maxFailPos, p.maxFailExpected
 //@   ensures [inv C01] Inv(p)
 //@   ensures [sem C01 C17] ok == (widthAt(p.data, old(p.pt.offset)) > 0)
-//@   ensures [peg-any C01] D(any, p.data, old(p.pt.offset), ok, p.pt.offset, val)
+//@   ensures [peg-any C01 C07] D(any, p.data, old(p.pt.offset), ok, p.pt.offset, val)
 //@   ensures [advance C01 C17] ok ==> p.pt.offset == old(p.pt.offset) + old(p.pt.w)
 //@   ensures [bytes C01 C17] ok ==> val == p.data[old(p.pt.offset):p.pt.offset]
 //@   ensures [nofail-consume C01] !ok ==> p.pt == old(p.pt) && val == nil
@@ -393,7 +393,7 @@ package builder
 //@   requires [inv] Inv(p) && lit != nil
 //@   modifies p.pt, *p.errs, p.depth, p.maxFailPos, p.maxFailExpected
 //@   ensures [inv C01] Inv(p)
-//@   ensures [peg-lit C01 C17] D(lit, p.data, old(p.pt.offset), ok, p.pt.offset, val)
+//@   ensures [peg-lit C01 C17 C07] D(lit, p.data, old(p.pt.offset), ok, p.pt.offset, val)
 //@   ensures [bytes C01 C17] ok ==> val == p.data[old(p.pt.offset):p.pt.offset]
 //@   ensures [nofail-consume C01] !ok ==> p.pt == old(p.pt) && val == nil
 //@   ensures [monotone C01] p.pt.offset >= old(p.pt.offset)
@@ -419,7 +419,7 @@ package builder
 //@   modifies p.pt, *p.errs, p.depth, p.maxFailPos, p.maxFailExpected
 //@   ensures [inv C01] Inv(p)
 //@   ensures [sem C01 C15 C17] ok == ClassOK(chr, p.data, old(p.pt.offset))
-//@   ensures [peg-class C01] D(chr, p.data, old(p.pt.offset), ok, p.pt.offset, val)
+//@   ensures [peg-class C01 C07] D(chr, p.data, old(p.pt.offset), ok, p.pt.offset, val)
 //@   ensures [advance C01 C17] ok ==> p.pt.offset == old(p.pt.offset) + old(p.pt.w)
 //@   ensures [bytes C01 C17] ok ==> val == p.data[old(p.pt.offset):p.pt.offset]
 //@   ensures [nofail-consume C01] !ok ==> p.pt == old(p.pt) && val == nil
